@@ -6,6 +6,8 @@ package drpcsignal
 import (
 	"sync"
 	"sync/atomic"
+
+	"storj.io/drpc/drpcdebug"
 )
 
 type signalStatus = uint32
@@ -41,9 +43,12 @@ func (s *Signal) Signal() chan struct{} {
 // callers.
 func (s *Signal) signalSlow() chan struct{} {
 	s.mu.Lock()
+	drpcdebug.Point("signal.signal.locked", s)
 	if set := s.status; set&statusChannelCreated == 0 {
 		s.ch = make(chan struct{})
+		drpcdebug.Point("signal.signal.made", s)
 		atomic.StoreUint32(&s.status, set|statusChannelCreated)
+		drpcdebug.Point("signal.signal.stored", s)
 	}
 	s.mu.Unlock()
 	return s.ch
@@ -62,10 +67,12 @@ func (s *Signal) Set(err error) (ok bool) {
 // callers.
 func (s *Signal) setSlow(err error) (ok bool) {
 	s.mu.Lock()
+	drpcdebug.Point("signal.set.locked", s)
 	if status := s.status; status&statusErrorSet == 0 {
 		ok = true
 
 		s.err = err
+		drpcdebug.Point("signal.set.errStored", s)
 		if status&statusChannelCreated == 0 {
 			s.ch = closed
 		}
@@ -74,10 +81,12 @@ func (s *Signal) setSlow(err error) (ok bool) {
 		// close it, otherwise there are races where a caller can hit the
 		// atomic fast path and observe invalid values.
 		atomic.StoreUint32(&s.status, statusErrorSet|statusChannelCreated)
+		drpcdebug.Point("signal.set.statusStored", s)
 
 		if status&statusChannelCreated != 0 {
 			close(s.ch)
 		}
+		drpcdebug.Point("signal.set.closed", s)
 	}
 	s.mu.Unlock()
 	return ok
